@@ -305,52 +305,34 @@ class SchedulingSolver(BaseModelWithJson):
             # Concurrent buffers
             #
             if isinstance(buffer, ConcurrentBuffer):
-                functions = []
-                x = z3.Int(f"t_{buffer.name}_variable")
-
-                # unloading tasks
-                for t in buffer._unloading_tasks:
-                    f = z3.Function(
-                        f"{buffer.name}_{t.name}_quantity_unloading",
-                        z3.IntSort(),
-                        z3.IntSort(),
-                    )
+                # the quantity a task moves at a given time: a quantifier-free definition
+                # (with quantified functions z3 may give up with "incomplete quantifiers"
+                # on a satisfiable problem, which is then reported as having no solution)
+                def quantity_moved_at(time):
                     # a task that is not scheduled does not access the buffer
-                    asst = z3.ForAll(
-                        x,
+                    moves = [
                         z3.If(
-                            z3.And(x == t._start, t._scheduled),
-                            f(x) == -buffer._unloading_tasks[t],
-                            f(x) == 0,
-                        ),
-                    )
-                    self.append_z3_assertion(asst)
-                    functions.append(f)
+                            z3.And(time == t._start, t._scheduled),
+                            -buffer._unloading_tasks[t],
+                            0,
+                        )
+                        for t in buffer._unloading_tasks
+                    ]
+                    moves += [
+                        z3.If(
+                            z3.And(time == t._end, t._scheduled),
+                            +buffer._loading_tasks[t],
+                            0,
+                        )
+                        for t in buffer._loading_tasks
+                    ]
+                    return z3.Sum(moves)
 
-                # loading tasks
-                for t in buffer._loading_tasks:
-                    f = z3.Function(
-                        f"{buffer.name}_{t.name}_quantity_loading",
-                        z3.IntSort(),
-                        z3.IntSort(),
-                    )
-                    asst = z3.ForAll(
-                        x,
-                        z3.If(
-                            z3.And(x == t._end, t._scheduled),
-                            f(x) == +buffer._loading_tasks[t],
-                            f(x) == 0,
-                        ),
-                    )
-                    self.append_z3_assertion(asst)
-                    functions.append(f)
                 for i in range(len(buffer._buffer_levels) - 1):
                     if i == 0:
                         asst = buffer._buffer_levels[1] == buffer._buffer_levels[
                             0
-                        ] + z3.Sum(
-                            [f(buffer._level_changes_time[0]) for f in functions]
-                        )
+                        ] + quantity_moved_at(buffer._level_changes_time[0])
                         self.append_z3_assertion(asst)
                     else:  # if two consecutives level change times are the same, then only count them
                         asst = z3.If(
@@ -359,9 +341,7 @@ class SchedulingSolver(BaseModelWithJson):
                             buffer._buffer_levels[i + 1] == buffer._buffer_levels[i],
                             buffer._buffer_levels[i + 1]
                             == buffer._buffer_levels[i]
-                            + z3.Sum(
-                                [f(buffer._level_changes_time[i]) for f in functions]
-                            ),
+                            + quantity_moved_at(buffer._level_changes_time[i]),
                         )
                         self.append_z3_assertion(asst)
             #
